@@ -118,6 +118,17 @@ def _add_sources(stream, src, fault_box=None):
         stream.add_noise(src["noise"][0], src["noise"][1])
     for t in src["tones"]:
         stream.add_constant_signal(f_start=t["f_start"], drift_rate=t["drift"], level=t["level"], phase=t["phase"])
+    g = src.get("gated")
+    if g:
+        # a pulsed user source: a tone that is exactly silent during every other stretch of g["period"] samples
+        import numpy as np
+        fs, t0, per, lv, fo = g["fs"], g["t0"], g["period"], g["level"], g["f_off"]
+
+        def gated(ts, fs=fs, t0=t0, per=per, lv=lv, fo=fo):
+            ts = np.asarray(ts)
+            k = np.floor((ts - t0) * fs + 0.5).astype(np.int64)
+            return lv * np.cos(2 * np.pi * fo * (ts - t0)) * ((k // per) % 2 == 0)
+        stream.add_signal(gated)
 
 
 def build_antenna(spec):
